@@ -251,6 +251,13 @@ def gen_cases(tier, seed):
         for order in (["alpha", "beta"], ["beta", "alpha"]):
             for reorder in (["alpha", "beta"], ["beta", "alpha"]):
                 cases.append({"kind": "conditional-chain", "order": order, "reorder": reorder, "sub": int(rng.integers(1 << 31))})
+    # other wirings than a chain: one conditioner used for two parameters of a dependent, two distinct conditioners of one
+    # dependent, one conditioner shared by two dependents - every call order, fit and re-fit
+    drng = np.random.default_rng([seed, 14, 3])
+    for r in range(1 if tier == "quick" else 12):
+        for topo in ("same-conditioner-twice", "two-conditioners", "shared-conditioner"):
+            for call in perms3:
+                cases.append({"kind": "dag", "topology": topo, "call": list(call), "recall": list(perms3[(r + call[0]) % 6]), "sub": int(drng.integers(1 << 31))})
     return cases
 
 
@@ -283,7 +290,7 @@ def run_case(case, ctx):
     TRACE.clear()
     with warnings.catch_warnings():
         warnings.simplefilter("ignore")
-        {"single": _single, "chain": _chain, "conditional-chain": _cond_chain}[case["kind"]](case, ctx)
+        {"single": _single, "chain": _chain, "conditional-chain": _cond_chain, "dag": _dag}[case["kind"]](case, ctx)
 
 
 def _single(case, ctx):
@@ -447,6 +454,79 @@ def _check_trace(ctx, funcs, label):
             if seen.get(key) != dict(cond.parameters):
                 ok, why = False, f"last fit of function {ids[id(f)]} did not see the final parameters of conditioner {ids[id(cond)]}"
     ctx.check("c14.trace-order", ok, f"{label}: dependency order violated: {why}", events=[(e[0], ids.get(e[1])) for e in TRACE if e[1] in ids][:40])
+
+
+def _g_comb(x, p, q, u_of_x, v_of_x):
+    return p * u_of_x(x) + q * v_of_x(x) ** 2
+
+
+def _g_sqrt(x, a, b):
+    return a + b * np.sqrt(x)
+
+
+def _make_dag(topo):
+    """Three functions [f0, f1, f2] and the indices in a topological order."""
+    from virocon import DependenceFunction
+
+    A = DependenceFunction(_g_base)
+    A.parameters = dict(zip(A.parameters.keys(), [1.0, 1.0]))
+    if topo == "same-conditioner-twice":
+        Bf = DependenceFunction(_g_sqrt)
+        Bf.parameters = dict(zip(Bf.parameters.keys(), [1.0, 1.0]))
+        C = DependenceFunction(_g_comb, u_of_x=A, v_of_x=A)
+        C.parameters = dict(zip(C.parameters.keys(), [1.0, 1.0]))
+        return [A, Bf, C]
+    if topo == "two-conditioners":
+        Bf = DependenceFunction(_g_sqrt)
+        Bf.parameters = dict(zip(Bf.parameters.keys(), [1.0, 1.0]))
+        C = DependenceFunction(_g_comb, u_of_x=A, v_of_x=Bf)
+        C.parameters = dict(zip(C.parameters.keys(), [1.0, 1.0]))
+        return [A, Bf, C]
+    D1 = DependenceFunction(_g_mid, inner=A)
+    D1.parameters = dict(zip(D1.parameters.keys(), [0.5, 0.5]))
+    D2 = DependenceFunction(_g_top, inner2=A)
+    D2.parameters = dict(zip(D2.parameters.keys(), [1.0, 0.0]))
+    return [A, D1, D2]
+
+
+def _dag_data(topo, rng, n=14):
+    x = np.sort(rng.uniform(0.5, 10, n))
+    a = (float(rng.uniform(0.5, 2)), float(rng.uniform(0.1, 0.6)))
+    b = (float(rng.uniform(0.5, 2)), float(rng.uniform(0.3, 1.0)))
+    yA = a[0] + a[1] * x
+    if topo == "shared-conditioner":
+        ys = [yA, float(rng.uniform(0.2, 1.5)) + float(rng.uniform(0.5, 2.0)) * yA, float(rng.uniform(0.5, 2.0)) * yA + float(rng.uniform(-1, 1))]
+    else:
+        yB = b[0] + b[1] * np.sqrt(x)
+        p, q = float(rng.uniform(0.5, 2)), float(rng.uniform(0.05, 0.4))
+        ys = [yA, yB, p * yA + q * (yA if topo == "same-conditioner-twice" else yB) ** 2]
+    return x, [y * (1 + 0.02 * rng.standard_normal(n)) for y in ys]
+
+
+def _dag(case, ctx):
+    rng = np.random.default_rng(case["sub"])
+    topo = case["topology"]
+    ctx.cls("topology", topo)
+    grid = np.linspace(0.5, 10, 9)
+    funcs = _make_dag(topo)
+    for label, order in (("first fit", case["call"]), ("re-fit", case["recall"])):
+        x, ys = _dag_data(topo, rng)
+        starts = [list(f.parameters.values()) for f in funcs]
+        TRACE.clear()
+        for i in order:
+            funcs[i].fit(x, ys[i])
+        _check_trace(ctx, funcs, f"{topo}, {label}")
+        with M.quiet():
+            ref = _make_dag(topo)
+            for f, st in zip(ref, starts):
+                f.parameters = dict(zip(f.parameters.keys(), st))
+            for f, y in zip(ref, ys):  # [conditioners..., dependents] is a topological order in every wiring
+                f.fit(x, y)
+        for i, (f, r) in enumerate(zip(funcs, ref)):
+            a, b = np.asarray(f(grid), float), np.asarray(r(grid), float)
+            ctx.check("c14.chain-equals-topological", bool(np.all(np.abs(a - b) <= 1e-4 * np.abs(b) + 1e-9)), f"{topo}, {label}: a dependence function does not end up with the parameters of a fit after its conditioners", call_order=order, function=i, got=dict(f.parameters), reference=dict(r.parameters))
+    ctx.nontrivial = True
+    ctx.sample = {"kind": "dag", "topology": topo, "call_order": case["call"], "refit_order": case["recall"], "final": [dict(f.parameters) for f in funcs]}
 
 
 def _topological_reference(length, start, x, ys):
